@@ -607,7 +607,7 @@ pub fn run(r: &Run) {
         FsmCase { local, send_max, remote }
     }), check_fsm_params);
     r.assume(DYN_RULE);
-    r.prop("dynamic-sessions", r.tier.pick(3_000, 60_000), arb_dynamic, check_dynamic);
+    r.slow(|| r.prop("dynamic-sessions", r.tier.pick(3_000, 60_000), arb_dynamic, check_dynamic));
 }
 
 pub fn replay(sub: &str, case: &Value) -> Result<CheckResult, String> {
